@@ -10,7 +10,7 @@
    trace have been through an input shape of a recorded finding.  The strict invariants ignore
    `kf`; the narrow invariants C10_<Main>_<Situation> are the strict ones restricted to such a
    situation (listed first in PolicyTrace.cfg so that a rejection names the situation); the *_KF
-   invariants (PolicyKF.cfg) tolerate exactly the recorded wrong behaviour in that situation. *)
+   invariants (PolicyTraceKF.cfg) tolerate exactly the recorded wrong behaviour in that situation. *)
 EXTENDS Policy, TraceUtil
 
 VARIABLES l, P, last, exp, kf, via
@@ -207,7 +207,7 @@ C10_ReadBack_ApiOrigin    == SitApiOrigin  => (RbStmts /\ RbPols)
 C10_ReadBack_ApiCommAct   == SitApiCommAct => RbStmts
 
 ---------------------------------------------------------------------------
-(* weakened invariants (PolicyKF.cfg): tolerate exactly the recorded wrong behaviour *)
+(* weakened invariants (PolicyTraceKF.cfg): tolerate exactly the recorded wrong behaviour *)
 
 (* KF-C10-delasg-default: after DeletePolicyAssignment(all) the default action is unset and every
    route that reaches the default is rejected *)
